@@ -5,7 +5,7 @@ import ast
 from typing import Dict, List, Optional, Set
 
 from ..collect import callee_is, run_paths
-from ..common import defs_of, calls_in, construct, where
+from ..common import nested_fn, passed_as_argument, defs_of, calls_in, construct, where
 from ..flow import Value, show, subterms
 from ..loader import AnalysisError, ClassInfo, FuncInfo, Program, walk_shallow
 from ..report import Report
@@ -81,7 +81,7 @@ def run(p: Program, rep: Report, tier: str) -> None:
         if fa is None:
             raise AnalysisError(f"{side} NextResponse.from_app vanished")
         rep.analysed(fa.fq)
-        cb = fa.nested.get("start_response" if side == "wsgi" else "send")
+        cb = nested_fn(fa, "start_response" if side == "wsgi" else "send", passed_as_argument(fa))
         if cb is None:
             rep.undecide("R20.1", f"{side}: capture callback not found in from_app")
             continue
@@ -212,7 +212,7 @@ def run(p: Program, rep: Report, tier: str) -> None:
     # the capture callbacks must accept whatever the inner application sends: no raise, no early exit before the capture
     for side in ("wsgi", "asgi"):
         fa = p.cls(f"baize.{side}.middleware:NextResponse").methods["from_app"]
-        cb = fa.nested.get("start_response" if side == "wsgi" else "send")
+        cb = nested_fn(fa, "start_response" if side == "wsgi" else "send", passed_as_argument(fa))
         if cb is None:
             continue
         rs_ = [n for n in ast.walk(cb.node) if isinstance(n, ast.Raise)]
@@ -280,11 +280,12 @@ def run(p: Program, rep: Report, tier: str) -> None:
     # ---------------------------------------------------------------- R20.2 / R20.5 wrappers
     for side in ("wsgi", "asgi"):
         mw = p.module(f"baize.{side}.middleware").functions.get("middleware")
-        inner = mw.nested["d"].nested.get(side) if mw and "d" in mw.nested else None
+        mwd = nested_fn(mw, "d")
+        inner = nested_fn(mwd, side)
         if inner is None:
             raise AnalysisError(f"{side} middleware.d.{side} vanished")
         rep.analysed(inner.fq)
-        nc = inner.nested.get("next_call")
+        nc = nested_fn(inner, "next_call", passed_as_argument(inner))
         hname = mw.params[0] if mw.params else "handler"
         hcalls = [c for c in calls_in(inner) if isinstance(c.func, ast.Name) and c.func.id == hname]
         # roles: the request object built from the gateway arguments, the nested continuation
@@ -298,11 +299,11 @@ def run(p: Program, rep: Report, tier: str) -> None:
             rep.violation("R20.2", construct(inner, text=f"{len(hcalls)} handler calls"), where(inner), f"{side}: the middleware wrapper does not call handler(request, next_call) exactly once")
         if nc is not None:
             fcalls = [c for c in calls_in(nc) if ast.unparse(c.func) == "NextResponse.from_app"]
-            if len(fcalls) == 1 and [ast.unparse(a) for a in fcalls[0].args] == [mw.nested["d"].params[0], nc.params[0]]:
+            if len(fcalls) == 1 and [ast.unparse(a) for a in fcalls[0].args] == [mwd.params[0], nc.params[0]]:
                 rep.ok("R20.2", f"{side}: next_call -> NextResponse.from_app(app, request) once")
             else:
                 rep.violation("R20.2", construct(nc, text="next_call"), where(nc), f"{side}: next_call does not delegate exactly once to NextResponse.from_app(app, request)")
-        others = [c for c in calls_in(inner) if isinstance(c.func, ast.Name) and c.func.id == mw.nested["d"].params[0]]
+        others = [c for c in calls_in(inner) if isinstance(c.func, ast.Name) and c.func.id == mwd.params[0]]
         if others:
             rep.violation("R20.2", construct(inner, others[0]), where(inner, others[0]), f"{side}: the middleware wrapper calls the inner application directly (it would run twice)")
         gw = ["environ", "start_response"] if side == "wsgi" else ["scope", "receive", "send"]
@@ -318,7 +319,8 @@ def run(p: Program, rep: Report, tier: str) -> None:
         # shortcut: decorator / request_response
         sm = p.module(f"baize.{side}.shortcut")
         dec = sm.functions.get("decorator")
-        view = dec.nested["d"].nested.get("view") if dec and "d" in dec.nested else None
+        decd = nested_fn(dec, "d")
+        view = nested_fn(decd, "view")
         if view is None:
             raise AnalysisError(f"{side} decorator.d.view vanished")
         rep.analysed(view.fq)
@@ -326,7 +328,7 @@ def run(p: Program, rep: Report, tier: str) -> None:
         txt = ast.unparse(rets[0].value) if rets else ""
         dh = dec.params[0] if dec.params else "handler"
         vp = view.params
-        dp = dec.nested["d"].params
+        dp = decd.params
         want_txt = f"{dh}({vp[0]}, {dp[0]})" if len(vp) == 1 and len(dp) == 1 else None
         if want_txt is not None and txt in (want_txt, "await " + want_txt) and len(rets) == 1 and len(view.node.body) <= 2:
             rep.ok("R20.5", f"{side}: decorator view returns handler(request, next_call) unchanged")
@@ -436,7 +438,7 @@ def run(p: Program, rep: Report, tier: str) -> None:
                 for k, v in zip(n.keys, n.values):
                     if isinstance(k, ast.Constant) and k.value == "type" and isinstance(v, ast.Constant) and isinstance(v.value, str) and v.value.startswith("http.response."):
                         emitted.setdefault(v.value, (f_, n))
-    cap = afa.nested.get("send")
+    cap = nested_fn(afa, "send", passed_as_argument(afa))
     handled = set()
     if cap is not None:
         for n in ast.walk(cap.node):
